@@ -18,7 +18,9 @@ import extract  # noqa: E402
 def main():
     cfgs = list(extract.QUICK) + sorted(extract.THOROUGH_EXTRA)
     paths, tree = extract.ensure_facts(cfgs)
-    allf, per, sig, consts = set(), {}, {}, set()
+    allf, per, sig, consts, callers = set(), {}, {}, set(), {}
+    sys.path.insert(0, os.path.join(HERE, 'rules'))
+    import inline
     for c, p in paths.items():
         d = json.load(open(p))
         names = sorted(b['path'] for b in d['bodies'] if b['kind'] in ('Fn', 'AssocFn') and b['promoted'] is None)
@@ -28,7 +30,15 @@ def main():
         for f in d['fns']:
             if f['path'] in names:
                 sig[f['path']] = [f['inputs'], f['output']]
-    out = {'tree': tree, 'all': sorted(allf), 'per_cfg': per, 'sig': sig, 'consts': sorted(consts)}
+        for b in d['bodies']:
+            if b['promoted'] is not None:
+                continue
+            who = b.get('root') or b['path']
+            for bl in b['blocks']:
+                cp = inline.callee_path(bl['term'])
+                if cp:
+                    callers.setdefault(cp, set()).add(who)
+    out = {'tree': tree, 'all': sorted(allf), 'per_cfg': per, 'sig': sig, 'consts': sorted(consts), 'callers': {k: sorted(v) for k, v in callers.items() if k in allf}}
     json.dump(out, open(os.path.join(HERE, 'reference_fns.json'), 'w'), indent=0, sort_keys=True)
     print('%d functions over %d configurations (tree %s)' % (len(allf), len(per), tree))
 
